@@ -51,8 +51,10 @@ let is_scale kind = String.length kind = 2 && kind.[0] = 'S' && String.contains 
    balanced-tree sets by the rules of the API (eval_large below) and [spec] decides the property on
    the implementation's output as for every other line. *)
 let is_large kind = String.length kind = 2 && kind.[0] = 'L' && String.contains "ixstf" kind.[1]
+let is_nan_kind0 kind = List.mem kind ["LNf"; "LNg"; "LNa"; "LNr"]   (* round 7: NaN members, see eval_nan / spec_nan below *)
 let parse_case inp =
   match words inp with
+  | [kind; k; ops] when is_nan_kind0 kind -> (true, int_of' k, List.map (String.split_on_char ':') (String.split_on_char ';' ops))
   | [kind; k; ops] when is_scale kind || is_large kind || List.mem kind ["X"; "B"; "H"] ->
     (is_scale kind || is_large kind, int_of' k, List.map (String.split_on_char ':') (String.split_on_char ';' ops))
   | [kind; k] when is_scale kind || is_large kind || List.mem kind ["X"; "B"; "H"] -> (is_scale kind || is_large kind, int_of' k, [])
@@ -226,9 +228,124 @@ let eval_large k ops =
       with Bad_syntax | Failure _ -> "?" in
     String.concat "/" (res :: List.init k dump)) ops)
 
+(* ---------------------------------------------------------------- round 7: NaN members (kinds LNf LNg LNa LNr)
+
+   Elements that are not equal to themselves are outside the theorems (the model's elements have a
+   reflexive decidable equality), so these lines are NOT replayed on the extracted model.  The
+   reference is the built-in map as the Go specification describes it, driven by the same calls: an
+   ordinary set of codes plus a COUNT of NaN members per variable -- every insertion of a NaN adds a
+   member, Has(NaN) is false, Remove/RemoveAll/Pop cannot delete a NaN (Pop returns it and it stays),
+   Equals/IsSubset are false as soon as the receiver holds a NaN (and is not empty / not larger),
+   Intersect never takes a NaN, Clone copies them, and the clear builtin -- Clear -- removes them
+   all.  [eval_nan] spells the expected output from that reference; [spec_nan] walks the
+   implementation's output against it clause by clause, the clause for Clear first: after Clear the
+   set has Len 0, IsEmpty, ranging over it meets nothing and Slice is empty. *)
+module NS = Set.Make (Int)
+
+type nan_var = { mutable nil : bool; mutable s : NS.t; mutable n : int }
+
+let nan_len v = NS.cardinal v.s + v.n
+let nan_dump v =
+  if v.nil then "n" else
+  let len = nan_len v in
+  Printf.sprintf "%d%s:%s0:%d:%s:%d" len (if len = 0 then "E" else "F")
+    (String.concat "" (List.init 4 (fun x -> b01 (NS.mem x v.s)))) v.n (str_ints (NS.elements v.s)) len
+
+(* one call on the reference; the expected result *)
+let nan_step k (r : nan_var array) p =
+  if List.length p < 2 || List.length p > 3 then raise Bad_syntax;
+  let v a = let i = int_of' (nth_arg p a) in if i < 0 || i >= k then raise Bad_syntax else i in
+  let l a = let xs = ints_of' (nth_arg p a) in List.iter (fun x -> if x < -2 then raise Bad_syntax) xs; xs in
+  let ord xs = NS.of_list (List.filter (fun x -> x >= 0) xs) and nans xs = List.length (List.filter (fun x -> x < 0) xs) in
+  let i = v 1 in
+  let x = r.(i) in
+  let b c = "b" ^ b01 c in
+  let set_to s n = x.nil <- false; x.s <- s; x.n <- n in
+  match List.hd p with
+  | "new" -> let xs = l 2 in set_to (ord xs) (nans xs); "C1"
+  | "nil" -> x.nil <- true; x.s <- NS.empty; x.n <- 0; "R1"
+  | "clone" -> let y = r.(v 2) in set_to y.s y.n; "C1"
+  | "isect" ->
+    let js = ints_of' (nth_arg p 2) in
+    List.iter (fun j -> if j < 0 || j >= k then raise Bad_syntax) js;
+    let s = (match js with [] -> NS.empty | j :: rest -> List.fold_left (fun a j -> NS.inter a r.(j).s) r.(j).s rest) in
+    set_to s 0; "C1"
+  | "add" -> let xs = l 2 in set_to (NS.union x.s (ord xs)) (x.n + nans xs); "R1"
+  | "addall" ->
+    let j = v 2 in if j = i then raise Bad_syntax;
+    let y = r.(j) in
+    if x.nil then set_to y.s y.n else set_to (NS.union x.s y.s) (x.n + y.n); "R1"
+  | "rm" -> let xs = l 2 in x.s <- NS.diff x.s (ord xs); "R1"
+  | "rmall" -> x.s <- NS.diff x.s r.(v 2).s; "R1"
+  | "clear" -> if List.length p <> 2 then raise Bad_syntax; x.s <- NS.empty; x.n <- 0; "R1"
+  | "pop" ->
+    if nan_len x = 0 then "e0" else
+    let c = int_of' (nth_arg p 2) in
+    if c < 0 then (if x.n > 0 then "e-1" else "BADORDER")
+    else if NS.mem c x.s then (x.s <- NS.remove c x.s; "e" ^ string_of_int c) else "BADORDER"
+  | "has" -> (match l 2 with [c] -> b (c >= 0 && NS.mem c x.s) | _ -> raise Bad_syntax)
+  | "hasall" -> let xs = l 2 in if nan_len x = 0 then b (xs = []) else b (List.for_all (fun c -> c >= 0 && NS.mem c x.s) xs)
+  | "hasany" -> let xs = l 2 in b (List.exists (fun c -> c >= 0 && NS.mem c x.s) xs)
+  | "len" -> "i" ^ string_of_int (nan_len x)
+  | "empty" -> b (nan_len x = 0)
+  | "eq" -> let y = r.(v 2) in b (nan_len x = nan_len y && x.n = 0 && NS.subset x.s y.s)
+  | "sub" -> let y = r.(v 2) in b (nan_len x = 0 || (nan_len x <= nan_len y && x.n = 0 && NS.subset x.s y.s))
+  | "meets" -> b (not (NS.disjoint x.s r.(v 2).s))
+  | "slice" -> Printf.sprintf "l%s:%d:%s" (b01 (nan_len x > 0)) x.n (str_ints (NS.elements x.s))
+  | _ -> raise Bad_syntax
+
+let nan_fresh k = Array.init k (fun _ -> { nil = true; s = NS.empty; n = 0 })
+
+let eval_nan k ops =
+  let r = nan_fresh k in
+  String.concat ";" (List.map (fun p ->
+    match (try Some (nan_step k r p) with Bad_syntax | Failure _ -> None) with
+    | None -> "?"
+    | Some res -> String.concat "/" (res :: List.map nan_dump (Array.to_list r))) ops)
+
+let spec_nan k ops out =
+  let outs = if out = "" then [] else String.split_on_char ';' out in
+  if List.length outs <> List.length ops then Some "number of outputs differs from number of operations" else
+  let r = nan_fresh k in
+  let rec go n ops outs =
+    match ops, outs with
+    | [], _ | _, [] -> None
+    | p :: ops', o :: outs' ->
+      let fail why =
+        let o = String.concat ":" p in
+        let o = if String.length o > 120 then String.sub o 0 120 ^ "..." else o in
+        Some (Printf.sprintf "op#%d %s: %s" n o why) in
+      let fields = String.split_on_char '/' o in
+      let res = List.hd fields and dumps = List.tl fields in
+      if res = "?" then go (n + 1) ops' outs' else
+      (match (try Some (nan_step k r p) with Bad_syntax | Failure _ -> None) with
+       | None -> fail "unreadable operation with a readable output"
+       | Some want ->
+         let name = List.hd p in
+         let i = int_of' (nth_arg p 1) in
+         if List.length dumps <> k then fail "bad dump count" else
+         (* the clause this round is about: Clear removes ALL elements, the irreflexive ones too *)
+         let d_i = List.nth dumps i in
+         if name = "clear" && d_i <> "n" && d_i <> "0E:00000:0:.:0" then
+           fail (Printf.sprintf "after Clear the set is not empty: dump %s (Len, IsEmpty, Has over 0..3 and a NaN : NaN members met by ranging : other members : length of Slice), must be 0E:00000:0:.:0" d_i)
+         else if res <> want then
+           fail (Printf.sprintf "result %s, a built-in map driven by the same calls gives %s" res want)
+         else
+           let rec chk j = function
+             | [] -> None
+             | d :: ds ->
+               let w = nan_dump r.(j) in
+               (* nil-ness is tracked by the reference as the API prescribes it *)
+               if d <> w then Some (Printf.sprintf "afterwards v%d is %s, a built-in map driven by the same calls is %s" j d w) else chk (j + 1) ds in
+           (match chk 0 dumps with Some why -> fail why | None -> go (n + 1) ops' outs'))
+  in
+  go 0 ops outs
+
+
 let eval inp =
   match (try Some (parse_case inp) with Bad_syntax -> None) with
   | None -> "?"
+  | Some (_, k, ops) when k >= 1 && k <= 8 && (match words inp with kind :: _ -> is_nan_kind0 kind | [] -> false) -> eval_nan k ops
   | Some (_, k, ops) when k >= 1 && k <= 8 && (match words inp with kind :: _ -> is_large kind | [] -> false) -> eval_large k ops
   | Some (scale, k, ops) ->
     if k < 1 || k > 8 then "?" else
@@ -430,7 +547,7 @@ let spec prop inp out =
   | Some (scale, k, ops) ->
     if k < 1 || k > 8 then None else
     (* the input parses: from here on anything unreadable is the implementation's output *)
-    try spec_case scale k ops out with
+    try (if (match words inp with kind :: _ -> is_nan_kind0 kind | [] -> false) then spec_nan k ops out else spec_case scale k ops out) with
     | Bad_syntax -> if String.contains out '?' then None else Some "unreadable output"
     | Failure _ | Invalid_argument _ | Not_found -> Some "unreadable output"
 
